@@ -295,7 +295,7 @@ func c06GenScript(ctx *core.Ctx, r *hx.Rand, style int) {
 			if r.Chance(2, 3) {
 				d = dues[0]
 			}
-			switch r.Intn(7) {
+			switch r.Intn(8) {
 			case 0:
 				t = d - ms
 			case 1:
@@ -308,6 +308,8 @@ func c06GenScript(ctx *core.Ctx, r *hx.Rand, style int) {
 				t = d
 			case 6:
 				t = d + int64(r.Range(0, 3))*ms + 1
+			case 7:
+				t = d - 400_000
 			}
 		}
 		if t < now {
@@ -510,7 +512,7 @@ func c06Gen(ctx *core.Ctx) {
 		return
 	}
 	// stress after the scripts (the stack scans of the script runner look at every goroutine)
-	total := 200_000
+	total := 1_000_000
 	if ctx.Thorough {
 		total = 20_000_000
 	}
